@@ -119,6 +119,28 @@ _DEFAULT_BOUNDS: Final[Mapping[str, Callable[[Instance], int]]] = \
     })
 
 
+def _rescope_bin_bounds(
+        columns: dict[str, int]) -> tuple[tuple[str, int], ...]:
+    """
+    Restore the full names of the selected bin bound columns.
+
+    :func:`~pycommons.io.csv.csv_select_scope` strips the scope prefix
+    `bins.lowerBound.` from the names of the columns that it selects. The
+    keys of :attr:`PackingResult.bin_bounds`, however, carry this prefix.
+
+    :param columns: the selected columns, with the scope prefix removed
+    :return: the sorted columns under their full names
+
+    >>> _rescope_bin_bounds({"bins.lowerBound": 3, "geometric": 5, "damv": 4})
+    (('bins.lowerBound', 3), ('bins.lowerBound.damv', 4), \
+('bins.lowerBound.geometric', 5))
+    """
+    return tuple(sorted(
+        (k if k == LOWER_BOUNDS_BIN_COUNT
+         else csv_scope(LOWER_BOUNDS_BIN_COUNT, k), v)
+        for k, v in columns.items()))
+
+
 @dataclass(frozen=True, init=False, order=False, eq=False)
 class PackingResult(EvaluationDataElement):
     """
@@ -593,11 +615,10 @@ class CsvReader:
         #: the index of the bin height  column
         self.__idx_bin_height: Final[int] = csv_column(
             columns, KEY_BIN_HEIGHT)
-        #: the indices for the objective bounds
+        #: the indices for the bin bounds
         self.__bin_bounds: Final[tuple[tuple[str, int], ...]] = \
             csv_select_scope(
-                lambda x: tuple(sorted(((k, v) for k, v in x.items()))),
-                columns, LOWER_BOUNDS_BIN_COUNT)
+                _rescope_bin_bounds, columns, LOWER_BOUNDS_BIN_COUNT)
         #: the objective bounds
         self.__objective_bounds: Final[tuple[tuple[str, int], ...]] = \
             csv_select_scope(
